@@ -128,6 +128,74 @@ def inline_helpers(ts, helpers, depth=3):
     return ts
 
 
+PURE_ATOM = re.compile(r'bindings|key|check|\.|\(|\)|\|\||&&|!|[a-z_][a-z0-9_]*')
+
+
+def is_pure_binding_expr(e):
+    """an expression made of `bindings.<name>.check(key)` joined by `||`, `&&`, `!` and parentheses only
+    (`KeyBinding::check(&self, KeyEvent) -> bool` compares two values; hoisting or repeating it changes nothing)"""
+    txt = ' '.join(e)
+    atom = r'bindings \. [a-z_][a-z0-9_]* \. check \( key \)'
+    rest = re.sub(atom, 'A', txt)
+    return bool(e) and re.fullmatch(r'(?:A|\|\||&&|!|\(|\)| )+', rest) is not None and 'A' in rest
+
+
+def inline_pure_lets(ts):
+    """`let x = <pure binding expression>;` … `x` …  reads as the expression in place of `x`"""
+    out, i, subst = [], 0, {}
+    while i < len(ts):
+        if ts[i] == 'let' and i + 3 < len(ts) and re.fullmatch(r'[a-z_][a-z0-9_]*', ts[i + 1]) and ts[i + 2] == '=':
+            j = i + 3
+            depth = 0
+            while j < len(ts) and not (ts[j] == ';' and depth == 0):
+                depth += ts[j] in '([{'
+                depth -= ts[j] in ')]}'
+                j += 1
+            e = ts[i + 3:j]
+            if is_pure_binding_expr(e):
+                subst[ts[i + 1]] = e
+                i = j + 1
+                continue
+        if ts[i] in subst and (not out or out[-1] != '.') and not (i + 1 < len(ts) and ts[i + 1] in ('(', ':', '=')):
+            out += ['('] + subst[ts[i]] + [')']
+        else:
+            out.append(ts[i])
+        i += 1
+    return simplify_parens(out)
+
+
+def simplify_parens(ts):
+    """drop parentheses around a chain of `||` that is itself an operand of `||` or the whole `if` condition:
+    `if (a || b) || c {` reads `if a || b || c {` (same operands, same order of evaluation)"""
+    changed = True
+    while changed:
+        changed = False
+        for i in range(len(ts)):
+            if ts[i] != '(' or i == 0 or ts[i - 1] not in ('if', '||'):
+                continue
+            depth, j = 0, i
+            while j < len(ts):
+                depth += ts[j] == '('
+                depth -= ts[j] == ')'
+                if depth == 0:
+                    break
+                j += 1
+            if j + 1 >= len(ts) or ts[j + 1] not in ('||', '{'):
+                continue
+            inner = ts[i + 1:j]
+            d, ok = 0, True
+            for x in inner:
+                d += x in '([{'
+                d -= x in ')]}'
+                if d == 0 and x == '&&':
+                    ok = False
+            if ok and inner:
+                ts = ts[:i] + inner + ts[j + 1:]
+                changed = True
+                break
+    return ts
+
+
 def main():
     repo, out = sys.argv[1], sys.argv[2]
     src = open(os.path.join(repo, 'crates/trippy-tui/src/frontend.rs')).read()
@@ -137,7 +205,7 @@ def main():
     # and a statement `helper(app);` of a private free function without `return` / `?` is the helper's body
     consts = numeric_consts(os.path.join(repo, 'crates/trippy-tui/src'))
     helpers = helper_fns(ts)
-    norm = lambda body: None if body is None else subst_consts(inline_helpers(body, helpers), consts)
+    norm = lambda body: None if body is None else inline_pure_lets(subst_consts(inline_helpers(body, helpers), consts))
     run_app = norm(fn_body(ts, 'run_app'))
     disp = norm(fn_body(ts, 'verif_dispatch_key'))
     frame = norm(fn_body(ts, 'verif_frame'))
